@@ -105,7 +105,10 @@ PROPS_RAW = {
                                      "deferred_rw"], 100000, 2500000) +
             # the other corner of the template-argument space: word-sized trivially copyable
             # element types (and std::string), race detector on
-            [J("atomic_small", "wl_atomic_small", 100000, 2500000, races=1)] +
+            [J("atomic_small", "wl_atomic_small", 100000, 2500000, races=1),
+             # load / store / assignment lock unconditionally: also on an object built with
+             # locking disabled (which only affects the handle-returning functions)
+             J("guarded_opt.reg.disabled", "wl_guarded_opt", 40000, 1000000, mode="reg", disabled=1)] +
             # an operation that fails with an exception from the payload's copy/assignment must
             # leave the register holding a value somebody stored
             wrappers("throw", ["atomic_guarded", "guarded", "ordered_guarded"], 30000, 800000)},
